@@ -121,6 +121,7 @@ pub enum BaseOut {
     Char(char),
     Text(String),
     OptText(Option<String>),
+    Count(usize),
     Err(Span),
 }
 
@@ -207,6 +208,8 @@ pub enum SassOp {
     SkipLoudComment,
     WhitespaceWithoutComments,
     Whitespace,
+    /// indentation of the next non-blank line (cursor is restored)
+    PeekIndentation,
 }
 
 pub fn sass_op(lexer: VLexer, options: &crate::Options<'_>, op: SassOp) -> (BaseOut, VLexer) {
@@ -220,6 +223,17 @@ pub fn sass_op(lexer: VLexer, options: &crate::Options<'_>, op: SassOp) -> (Base
             Ok(())
         }
         SassOp::Whitespace => err_span(p.whitespace()),
+        SassOp::PeekIndentation => {
+            let r = err_span(p.verif_peek_indentation());
+            let toks = std::mem::replace(&mut p.toks, Lexer::verif_from_tokens(Vec::new(), span, true));
+            return (
+                match r {
+                    Ok(n) => BaseOut::Count(n),
+                    Err(s) => BaseOut::Err(s),
+                },
+                VLexer(toks),
+            );
+        }
     };
     let toks = std::mem::replace(&mut p.toks, Lexer::verif_from_tokens(Vec::new(), span, true));
     (
